@@ -69,7 +69,7 @@ def spec_for(P, inst):
     """None, or dict(kind, mode, ...) describing the E3 specification of this root"""
     p = inst.path
     if re.match(r'^arch::(all|x86_64::sse2|x86_64::avx2|aarch64::neon|wasm32::simd128)::packedpair::Finder::find_prefilter$', p) \
-            or p == 'memmem::searcher::Prefilter::find_simple':
+            or p == 'memmem::searcher::Prefilter::find_simple' or re.match(r'^memmem::searcher::prefilter_kind_\w+$', p):
         return {'kind': 'pairpre', 'mode': 'fwd', 'needles': 'pair', 'n': 1}
     m = re.match(r'^memchr::mem(r?)chr([23]?)$', p)
     if m:
@@ -167,7 +167,7 @@ def install_pair(I, inst, st, args, info):
         if isinstance(x1, IntV) and isinstance(x2, IntV) and isinstance(pair, AdtV):
             b1, b2, i1, i2 = x1.e, x2.e, pair.fields[0].e, pair.fields[1].e
             portable = True
-    elif p == mm.PREFILTER:
+    elif p == mm.PREFILTER and inst.path.endswith('::find_simple'):
         # find_simple: the "pair" degenerates to the rarest byte at its offset
         rb, ro = f.fields[2], f.fields[3]
         if isinstance(rb, IntV) and isinstance(ro, IntV):
@@ -175,7 +175,23 @@ def install_pair(I, inst, st, args, info):
             i1 = i2 = ro.e
             portable = True
     else:
-        gens = [f] if p == mm.PP_GEN else [x for x in f.fields if mm.tpath(I, x) == mm.PP_GEN]
+        pre = None
+        if p == mm.PREFILTER:
+            # a prefilter_kind_* dispatch target: the pair of the finder stored in the active union field, plus the
+            # content invariant of Prefilter that its constructors establish (C11 SPEC-POST): rarest = first pair byte
+            pre = f
+            kind = f.fields[1]
+            f = kind.val if isinstance(kind, UnionV) else None
+            p = mm.tpath(I, f)
+            if f is None:
+                return
+        if p == mm.PP_ALL:
+            pair, x1, x2 = f.fields
+            gens = []
+            if isinstance(x1, IntV) and isinstance(x2, IntV) and isinstance(pair, AdtV):
+                b1, b2, i1, i2 = x1.e, x2.e, pair.fields[0].e, pair.fields[1].e
+        else:
+            gens = [f] if p == mm.PP_GEN else [x for x in f.fields if mm.tpath(I, x) == mm.PP_GEN]
         for g in gens:
             pair, v1, v2, mhl = g.fields
             ok = (isinstance(v1, TermV) and v1.t[0] == 'splat' and isinstance(v2, TermV) and v2.t[0] == 'splat' and isinstance(pair, AdtV))
@@ -188,6 +204,11 @@ def install_pair(I, inst, st, args, info):
                 mm.add_atom(st, fa.atom)
     if b1 is None:
         return
+    if p != mm.PREFILTER and 'pre' in dir() and pre is not None:
+        rb, ro = pre.fields[2], pre.fields[3]
+        if isinstance(rb, IntV) and isinstance(ro, IntV):
+            st.store.add_eq(rb.e - b1)
+            st.store.add_eq(ro.e - i1)
     for i in (i1, i2):
         st.store.add_le(i + 1 - V(n))
     sym = fresh('pairneedle')
@@ -214,7 +235,7 @@ def post(spec):
         if spec['kind'] == 'pairpre':
             # (the private short-haystack fallback only has to be complete: its candidate may be clamped to 0)
             e3.check_search_post(I, inst, results, 'fwd', 'index', info.get('index_base'), range_check=False,
-                                 match_check=not inst.path.endswith('::find_simple'))
+                                 match_check=inst.path.endswith('::find_prefilter'))
             return
         if spec['mode'] == 'count':
             e3.check_count_post(I, inst, results)
